@@ -56,12 +56,17 @@ func fillRow(row []uint64, q uint64, kind int, seed uint64) {
 	}
 }
 
-func gadgetAccumulationScenario(ch chain) engine.Scenario {
+// shard/shards: the levels of a long chain are spread over several scenarios (levelQ ≡ shard mod shards) so that the
+// workers share them.
+func gadgetAccumulationScenario(ch chain, shard, shards int) engine.Scenario {
 	name := fmt.Sprintf("gadget/lazy-accumulation/%s", ch.name)
+	if shards > 1 {
+		name += fmt.Sprintf("/levels=%d mod %d", shard, shards)
+	}
 	Q, P := ch.Q, ch.P
 	nQ, nP := len(Q), len(P)
 	return engine.Scenario{Name: name, Bound: -1, Fn: func(c *engine.Chooser) {
-		levelQ := c.Choose(nQ, "levelQ")
+		levelQ := c.Choose((nQ-shard+shards-1)/shards, "levelQ")*shards + shard
 		levelP := -1
 		if nP > 0 {
 			levelP = c.Choose(nP, "levelP")
